@@ -14,7 +14,22 @@ build() { # build <variant> <cargo args...>
   fi
 }
 case "$ID" in
-  C01|C02|C03|C04|C05|C07|C08|C09|C10|C11|C12|C13|C16|C17|C18|C19)
+  C19)
+    # clause "Regex, Match and Error are Send + Sync": the type checker decides it on a three-line crate.
+    # (The runner itself shares a Regex between threads, so it would not build either; deciding the clause
+    # first turns that into a verdict instead of a machinery failure.)
+    sslog="$B/build_ss.log"
+    ( cd "$ROOT/tools/sendsync" && CARGO_TARGET_DIR="$B/ss" cargo check --offline ) >"$sslog" 2>&1
+    if [ $? -ne 0 ]; then
+      if grep -q 'E0277' "$sslog" && grep -q 'tools/sendsync/src/lib.rs' "$sslog" && ! grep -q 'could not compile `regress`' "$sslog"; then
+        python3 "$ROOT/tools/sendsync_violation.py" "$sslog" "${VERIF_TIER:-quick}"
+        exit 1
+      fi
+      echo "MACHINERY: the static-assertion crate failed to build for another reason (see $sslog)"; tail -n 30 "$sslog"; exit 3
+    fi
+    build rel cargo build --release --offline
+    exec "$B/rel/release/mc" "$ID" "$@" ;;
+  C01|C02|C03|C04|C05|C07|C08|C09|C10|C11|C12|C13|C16|C17|C18)
     build rel cargo build --release --offline
     exec "$B/rel/release/mc" "$ID" "$@" ;;
   C06)
